@@ -184,4 +184,139 @@ VARIANTS = [
         } else {
             self.queue.try_send_multi(val)
         };""")], kind='refactor'),
+
+    # ---------------------------------------------------------------- receive side
+    V('recv-no-forget', 'C01', ['P3e'], [E(MQ, """                        ctail_attempt = new_attempt;
+                        RW::forget_val(rval);""", """                        ctail_attempt = new_attempt;
+                        mem::drop(rval);""")]),
+    V('recv-no-forget2', 'C05', ['P3e'], [E(MQ, """                        ctail_attempt = new_attempt;
+                        RW::forget_val(rval);""", """                        ctail_attempt = new_attempt;""")]),
+    V('recv-commit-multi-direct', 'C01', ['P5b'], [E(RC, """            ReaderState::Multi => match self.linked.commit(by, ord) {
+                Some(transaction) => Some(ReadAttempt {
+                    linked: transaction,
+                    state: ReaderState::Multi,
+                }),
+                None => None,
+            },""", """            ReaderState::Multi => {
+                self.linked.commit_direct(by, ord);
+                None
+            }""")]),
+    V('recv-no-dec-on-retry', 'C04', ['P3b'], [E(MQ, """                        RW::dec_ref(&ref_cell.refcnt);
+                        ctail_attempt = ctail_attempt.reload();""", """                        ctail_attempt = ctail_attempt.reload();""")]),
+    V('recv-unpin-before-read', 'C04', ['P3b'], [E(MQ, """                let rval = dependently_mut(seen_tag, &mut read_cell.val, |rc| RW::get_val(rc));
+                fence(Release);
+                if !is_single {
+                    RW::dec_ref(&ref_cell.refcnt);
+                }""", """                if !is_single {
+                    RW::dec_ref(&ref_cell.refcnt);
+                }
+                let rval = dependently_mut(seen_tag, &mut read_cell.val, |rc| RW::get_val(rc));
+                fence(Release);""")]),
+    V('recv-single-forced', 'C04', ['P3c', 'P3b'], [E(MQ, "        let is_single = reader.is_single();", "        let is_single = reader.is_single() || true;")]),
+    V('recv-no-recheck', 'C04', ['P3b'], [E(MQ, """                    if reader.load_count(Relaxed) != wrap_valid_tag {
+                        RW::dec_ref(&ref_cell.refcnt);
+                        ctail_attempt = ctail_attempt.reload();
+                        continue;
+                    }""", "")]),
+    V('mpmc-forget-empty', 'C05', ['P3e', 'S1'], [E(MQ, """    fn forget_val(val: T) {
+        mem::forget(val);
+    }""", """    fn forget_val(_val: T) {}""")]),
+    V('recv-no-second-look', 'C07', ['P3f'], [E(MQ, """                    if self.writers.load(Relaxed) == 0 {
+                        fence(Acquire);
+                        if rm_tag(read_cell.wraps.load(Acquire)) != wrap_valid_tag {
+                            return Err((ptr::null(), TryRecvError::Disconnected));
+                        }
+                    }
+                    return Err((&read_cell.wraps, TryRecvError::Empty));
+                }
+                let ref_cell""", """                    if self.writers.load(Relaxed) == 0 {
+                        return Err((ptr::null(), TryRecvError::Disconnected));
+                    }
+                    return Err((&read_cell.wraps, TryRecvError::Empty));
+                }
+                let ref_cell""")]),
+    V('view-no-second-look', 'C07', ['P3f'], [E(MQ, """                if self.writers.load(Relaxed) == 0 {
+                    fence(Acquire);
+                    if rm_tag(read_cell.wraps.load(Acquire)) != wrap_valid_tag {
+                        return Err((op, ptr::null(), TryRecvError::Disconnected));
+                    }
+                }""", """                if self.writers.load(Relaxed) == 0 {
+                    return Err((op, ptr::null(), TryRecvError::Disconnected));
+                }""")]),
+    V('clone-recv-order', 'C12', ['P5c'], [E(MQ, """        self.reader.dup_consumer();
+        InnerRecv {
+            queue: self.queue.clone(),
+            reader: self.reader.clone(),""", """        let rd = self.reader.clone();
+        self.reader.dup_consumer();
+        InnerRecv {
+            queue: self.queue.clone(),
+            reader: rd,""")]),
+    V('view-no-destroy', 'C05', ['P4'], [E(MQ, """                let rval = op(rv_ref);
+                RW::drop_in_place(rv_ref);""", """                let rval = op(rv_ref);""")]),
+    V('view-commit-before-closure', 'C04', ['P4', 'P4e'], [E(MQ, """                let rval = op(rv_ref);
+                RW::drop_in_place(rv_ref);
+                ctail_attempt.commit_direct(1, Release);
+                Ok(rval)""", """                ctail_attempt.commit_direct(1, Release);
+                let rval = op(rv_ref);
+                RW::drop_in_place(rv_ref);
+                Ok(rval)""")]),
+    V('recv-tagload-relaxed', 'C04', ['O1'], [E(MQ, "let seen_tag = read_cell.wraps.load(DepOrd);", "let seen_tag = read_cell.wraps.load(Relaxed);")]),
+    V('recv-no-release-fence', 'C03', ['O2'], [E(MQ, """                let rval = dependently_mut(seen_tag, &mut read_cell.val, |rc| RW::get_val(rc));
+                fence(Release);""", """                let rval = dependently_mut(seen_tag, &mut read_cell.val, |rc| RW::get_val(rc));""")]),
+    V('recv-step-two', 'C02', ['P3g'], [E(MQ, "match ctail_attempt.commit_attempt(1, Relaxed) {", "match ctail_attempt.commit_attempt(2, Relaxed) {")]),
+    V('load-attempt-single-unguarded', 'C12', ['P5a'], [E(RC, """        if self.state.get() == ReaderState::Multi
+            && unsafe { (*self.meta).num_consumers.load(Ordering::Relaxed) } == 1
+        {""", """        if self.state.get() == ReaderState::Multi
+            && unsafe { (*self.meta).num_consumers.load(Ordering::Relaxed) } <= 2
+        {""")]),
+    V('recv-tag-not-checked', 'C01', ['P3a'], [E(MQ, """                if rm_tag(seen_tag) != wrap_valid_tag {
+                    if self.writers.load(Relaxed) == 0 {
+                        fence(Acquire);
+                        if rm_tag(read_cell.wraps.load(Acquire)) != wrap_valid_tag {
+                            return Err((ptr::null(), TryRecvError::Disconnected));
+                        }
+                    }
+                    return Err((&read_cell.wraps, TryRecvError::Empty));
+                }
+                let ref_cell""", """                if is_tagged(seen_tag) {
+                    if self.writers.load(Relaxed) == 0 {
+                        fence(Acquire);
+                        if rm_tag(read_cell.wraps.load(Acquire)) != wrap_valid_tag {
+                            return Err((ptr::null(), TryRecvError::Disconnected));
+                        }
+                    }
+                    return Err((&read_cell.wraps, TryRecvError::Empty));
+                }
+                let ref_cell""")]),
+    V('rf-recv-if-let', None, [], [E(MQ, """                match ctail_attempt.commit_attempt(1, Relaxed) {
+                    Some(new_attempt) => {
+                        ctail_attempt = new_attempt;
+                        RW::forget_val(rval);
+                    }
+                    None => return Ok(rval),
+                }""", """                if let Some(new_attempt) = ctail_attempt.commit_attempt(1, Relaxed) {
+                    ctail_attempt = new_attempt;
+                    RW::forget_val(rval);
+                } else {
+                    return Ok(rval);
+                }""")], kind='refactor'),
+    V('rf-recv-commit-release', None, [], [E(MQ, """                let rval = dependently_mut(seen_tag, &mut read_cell.val, |rc| RW::get_val(rc));
+                fence(Release);
+                if !is_single {
+                    RW::dec_ref(&ref_cell.refcnt);
+                }
+                match ctail_attempt.commit_attempt(1, Relaxed) {""", """                let rval = dependently_mut(seen_tag, &mut read_cell.val, |rc| RW::get_val(rc));
+                if !is_single {
+                    RW::dec_ref(&ref_cell.refcnt);
+                }
+                match ctail_attempt.commit_attempt(1, Release) {""")], kind='refactor'),
+    V('rf-recv-examine-each-iter', None, [], [E(MQ, """        self.examine_signals();
+        loop {
+            match self.queue.try_recv(&self.reader) {
+                Ok(v) => return Ok(v),
+                Err((_, TryRecvError::Disconnected)) => return Err(RecvError),""", """        loop {
+            self.examine_signals();
+            match self.queue.try_recv(&self.reader) {
+                Ok(v) => return Ok(v),
+                Err((_, TryRecvError::Disconnected)) => return Err(RecvError),""")], kind='refactor'),
 ]
